@@ -648,6 +648,38 @@ class PathState:
         """atoms fixed to a constant on this path"""
         return self.lin.const
 
+    def infeasible(self) -> bool:
+        """do the affine constraints collected on this path contradict a disequality recorded earlier on it?  (the false
+        branch of `x == c` only REMEMBERS x != c; constraints added later — a fork on the atoms of x — can force x == c)"""
+        for k, c, eq in self.eqs:
+            if eq:
+                continue
+            w = len(k)
+            val = 0
+            for f in k:
+                if not isinstance(f, F):
+                    break
+                f = self.lin.reduce(f)
+                if f.m:
+                    break
+                val = (val << 1) | f.c
+            else:
+                if val == c and (w or c == 0):
+                    return True
+        for _q, k, vals in self.__dict__.get("wf_members", ()):
+            val = 0
+            for f in k:
+                if not isinstance(f, F):
+                    break
+                f = self.lin.reduce(f)
+                if f.m:
+                    break
+                val = (val << 1) | f.c
+            else:
+                if val not in vals:
+                    return True
+        return False
+
     def choose(self, label: str) -> bool:
         if getattr(self, "no_fork", 0):
             raise Abort("fork needed inside a tentatively merged branch")
@@ -671,7 +703,8 @@ def explore(run: Callable[[PathState], Any], max_paths: int = 400):
             res = ("raise", e)
         except Abort as e:
             res = ("abort", e)
-        out.append((st, res))
+        if not st.infeasible():
+            out.append((st, res))
         if len(out) > max_paths:
             raise AnalysisError(f"more than {max_paths} paths")
         for i in range(len(script), len(st.decisions)):
@@ -985,6 +1018,11 @@ class Interp:
                     if r is None:
                         raise PathRaise("ValueError", f"not a valid {ci.name}")
                     return r
+                if forms is not None:
+                    # the lazy view ASSUMES a defined value (well-formed input); remembered, so that a path which later pins the
+                    # bits to an undefined value is recognised as outside the assumption (PathState.infeasible)
+                    vals = frozenset(m.value for m in members.values() if isinstance(m.value, int) and not isinstance(m.value, bool))
+                    self.st.__dict__.setdefault("wf_members", []).append((ci.qualname, tuple(forms), vals))
                 return AEnum(ci, v)
         if isinstance(v, (AOpq,)):
             return self.opaque(f"enum {ci.name} of opaque")
@@ -1125,14 +1163,39 @@ class Frame:
         base_env = self.env
         touched = mutated_names(st)
         results = []
+        heaps = []
+        base_heap = {hk: I.st.__dict__.get(hk) for hk in ("class_state", "defaults")}
+
+        def restore_heap():
+            for hk, hv in base_heap.items():
+                if hv is None:
+                    I.st.__dict__.pop(hk, None)
+                else:
+                    I.st.__dict__[hk] = hv
         for idx in range(1 << len(atoms)):
             assign = {a: (idx >> i) & 1 for i, a in enumerate(atoms)}
             memo = {}
             env_i = {k: (snapshot(v, memo) if k in touched else v) for k, v in base_env.items()}
+            # process-lifetime objects of this path (class-level containers, default-argument objects) are part of the state a
+            # case may change: every case works on its own copy, the copies are merged like local names (or the path forks)
+            heap_i = {}
+            for hk in ("class_state", "defaults"):
+                if base_heap[hk] is not None:
+                    heap_i[hk] = {k: snapshot(v, memo) for k, v in base_heap[hk].items()}
+                    I.st.__dict__[hk] = heap_i[hk]
+                else:
+                    heap_i[hk] = I.st.__dict__[hk] = {}
             saved = I.st.lin          # never mutated: the case works on a copy (an enclosing case split holds `saved` too)
             I.st.lin = saved.copy()
             for a_, v_ in assign.items():
                 I.st.lin.add(F(1 << a_, v_))
+            if I.st.infeasible():
+                # this assignment contradicts what the path already knows: a don't-care entry of the merged finite functions
+                I.st.lin = saved
+                restore_heap()
+                results.append(None)
+                heaps.append(None)
+                continue
             self.env = env_i
             I.case_depth += 1
             try:
@@ -1141,6 +1204,7 @@ class Frame:
                 I.case_depth -= 1
                 I.st.lin = saved
                 self.env = base_env
+                restore_heap()
                 more = [a for a in nc2.atoms if a not in atoms]
                 if not more:
                     raise Abort("case split does not make the branch decidable")
@@ -1150,6 +1214,7 @@ class Frame:
                 I.case_depth -= 1
                 I.st.lin = saved
                 self.env = base_env
+                restore_heap()
                 if len(atoms) > 8:
                     raise Abort("return/break/continue inside a data-dependent branch over too many atoms")
                 for a_ in atoms:
@@ -1163,14 +1228,36 @@ class Frame:
             finally:
                 I.st.lin = saved
                 self.env = base_env
+                restore_heap()
             I.case_depth -= 1
             results.append(env_i)
+            heaps.append(heap_i)
         # merge
+        feas = [i for i, e in enumerate(results) if e is not None]
+        if not feas:
+            raise Abort("no feasible assignment in a case split")
+        results = [e if e is not None else results[feas[0]] for e in results]
+        heaps = [h if h is not None else heaps[feas[0]] for h in heaps]
         names = set()
         for e in results:
             names.update(e.keys())
         names = [n_ for n_ in names if not (n_ in base_env and n_ not in touched)]
-        if not all(can_merge([e.get(n_, _MISSING) for e in results], atoms) for n_ in names):
+        heap_names = []
+        for hk in ("class_state", "defaults"):
+            ks = set()
+            for h in heaps:
+                ks.update(h[hk].keys())
+            for k in ks:
+                vals = [h[hk].get(k, _MISSING) for h in heaps]
+                if base_heap[hk] is not None and k in base_heap[hk] and all(v is not _MISSING and _unchanged(v, base_heap[hk][k]) for v in vals):
+                    continue
+                heap_names.append((hk, k, vals))
+        heap_ok = True
+        for hk, k, vals in heap_names:
+            if any(v is _MISSING for v in vals) or not can_merge(vals, atoms) or not _deep_mergeable(vals, atoms):
+                heap_ok = False
+                break
+        if not heap_ok or not all(can_merge([e.get(n_, _MISSING) for e in results], atoms) for n_ in names):
             # the cases differ in SHAPE (a container grows on some assignments only): no exact merge — fork the path on the atoms
             if len(atoms) > 8:
                 raise Abort("data-dependent branch changes the shape of a container over too many atoms")
@@ -1184,6 +1271,9 @@ class Frame:
             vals = [e.get(nme, _MISSING) for e in results]
             orig = base_env.get(nme, _MISSING)
             base_env[nme] = merge_cases(atoms, vals, orig)
+        for hk, k, vals in heap_names:
+            tgt = I.st.__dict__.setdefault(hk, {})
+            tgt[k] = merge_cases(atoms, vals, tgt.get(k, _MISSING))
 
     def _unused(self):
         pass
@@ -1842,6 +1932,42 @@ def snapshot(v, memo):
         return v
     memo[id(v)] = r
     return r
+
+
+def _unchanged(a, b, depth=0) -> bool:
+    """is the (snapshot) value a structurally identical to the original b?  (cheap, conservative: False when unsure)"""
+    if a is b:
+        return True
+    if depth > 6:
+        return False
+    if isinstance(a, ABits) and isinstance(b, ABits):
+        return len(a.items) == len(b.items) and all(x is y or _same(x, y) for x, y in zip(a.items, b.items))
+    if isinstance(a, list) and isinstance(b, list):
+        return len(a) == len(b) and all(_unchanged(x, y, depth + 1) for x, y in zip(a, b))
+    if isinstance(a, dict) and isinstance(b, dict):
+        if len(a) != len(b):
+            return False
+        try:
+            return all(k in b and _unchanged(x, b[k], depth + 1) for k, x in a.items())
+        except TypeError:
+            return False
+    if isinstance(a, AObj) and isinstance(b, AObj):
+        return a.cls is b.cls and set(a.attrs) == set(b.attrs) and all(_unchanged(x, b.attrs[k], depth + 1) for k, x in a.attrs.items())
+    if isinstance(a, ATable) and isinstance(b, ATable):
+        return a.rows == b.rows and a.cols == b.cols and all(x is y or _same(x, y) for ra, rb in zip(a.cells, b.cells) for x, y in zip(ra, rb))
+    if isinstance(a, (ABits, list, dict, AObj, ATable, AView)) or isinstance(b, (ABits, list, dict, AObj, ATable, AView)):
+        return False
+    return _same(a, b)
+
+
+def _deep_mergeable(vals, atoms, depth=0) -> bool:
+    """can_merge does not look inside dictionaries: the values under every key must be mergeable as well"""
+    first = vals[0]
+    if isinstance(first, dict):
+        if depth > 3:
+            return True
+        return all(can_merge([v[k] for v in vals], atoms) and _deep_mergeable([v[k] for v in vals], atoms, depth + 1) for k in first)
+    return True
 
 
 def can_merge(vals, atoms, depth=0) -> bool:
